@@ -25,8 +25,9 @@ RULE = (
     "an op addressed by item where item != key; distinct = canonical JSON of the case."
 )
 ASSUMPTIONS = [
-    "operands of built-in set type, and all operands under enforce_item_equivalence=True, carry for every key shared with the "
-    "receiver the receiver's own payload (otherwise two readings are defensible: item-equality vs key algebra)",
+    "operands under enforce_item_equivalence=True carry for every key shared with the receiver the receiver's own payload; built-in "
+    "set operands may carry a different payload under a shared key (the statement says key algebra) and, for universes of unhashable "
+    "items, the empty built-in set",
     "for shared keys with different payloads (non-enforcing KeyedSet operands) only the key set of |, &, ^ results is asserted "
     "and that each result item is one of the two candidates; in-place |= takes the operand's item (latest added wins)",
     "s[item] with an unequal item under enforcement may return the stored item or raise KeyError (docs silent)",
@@ -207,7 +208,7 @@ def resolve_operand(u, enforce, typed, m, operand):
             continue
         seen.add(ki)
         k = u.key(ki)
-        if (p == "same" or kind == "set" or enforce) and k in m:
+        if (p == "same" or enforce) and k in m:
             items.append(m[k])
         else:
             items.append(u.item(ki, 0 if p == "same" else p))
@@ -358,8 +359,8 @@ def run_case(ctx, case):
                 m.clear()
             elif name in BINARY_NEW + BINARY_CMP + BINARY_INPLACE:
                 kind = op[1][0]
-                if kind == "set" and not u.hashable:
-                    continue
+                if kind == "set" and not u.hashable and op[1][1]:
+                    continue  # (a built-in set cannot hold unhashable items - but the empty built-in set is a legal operand)
                 other, oitems = resolve_operand(u, enforce, typed, m, op[1])
                 tag = f"{name}:{kind}"
                 om = {u.model_key(x): x for x in oitems}
